@@ -1,6 +1,7 @@
 package main
 
 import (
+	"io"
 	"crypto/sha256"
 	"fmt"
 	"os"
@@ -127,8 +128,16 @@ func c10(g *Gen) {
 			}
 			t.gens = append(t.gens, rg)
 		}
+		hasText := g.Chance(0.35)
+		if hasText {
+			// a file type of the tool's own with a formatter that returns its input: a long text file
+			t.gens = append(t.gens, &recGen{name: "gtext", filter: map[int]bool{}, typeErr: -1, namersNil: true, fileType: "text", fileName: "notes.txt", log: &log,
+				initOut: strings.Repeat(fmt.Sprintf("a line of notes, %d\n", i), 40+g.R.Intn(300))})
+		}
 		mkctx := func(verify bool) *generator.Context {
-			return &generator.Context{Namers: namer.NameSystems{}, FileTypes: map[string]generator.FileType{"golang": generator.NewGolangFile()}, Verify: verify}
+			return &generator.Context{Namers: namer.NameSystems{}, FileTypes: map[string]generator.FileType{"golang": generator.NewGolangFile(),
+				"text": &generator.DefaultFileType{Format: func(b []byte) ([]byte, error) { return b, nil },
+					Assemble: func(w io.Writer, f *generator.File) { w.Write(f.Body.Bytes()) }}}, Verify: verify}
 		}
 		// what the run wants to write: generate into a reference directory
 		ref := filepath.Join(base, "ref")
@@ -144,6 +153,9 @@ func c10(g *Gen) {
 		// a file is unformattable iff its generator said so: find by re-formatting the reference content
 		for _, k := range names {
 			_, ferr := generator.ImportsWrapper([]byte(refSnap.files[k]))
+			if strings.HasSuffix(k, ".txt") {
+				ferr = nil // the text type's formatter accepts everything
+			}
 			if ferr != nil {
 				unform[k] = true
 				wanted = append(wanted, list(atom(k), list(atom(refSnap.files[k]), list())))
@@ -212,6 +224,9 @@ func c10(g *Gen) {
 			}
 			if len(unform) > 0 {
 				cls = append(cls, "unformattable-file")
+			}
+			if hasText {
+				cls = append(cls, "long-file-of-a-type-with-identity-formatter")
 			}
 			if kind == "verify" && err == nil {
 				cls = append(cls, "verify-ok")
